@@ -7,6 +7,8 @@
     errwrap  {"exc": null | {cls, isException, isValueError, line, column, str}, "version", "path", "lines"}
              -> {"returned": true} | {"raised": cls, "msg": msg};  attr: "missing" | null | int | "other"
     preexpand {"lines": [str]} -> {"ok": [str]}   (`_apply_pre_parsing_expansions`, line lists)
+    textseg  {"text": str, "toks": [[offset, ty, len]]} -> {"seg": [pieces]} | {"segerr": "badChar"}
+             the character-level scanner `TextLayout.seg` with the body-token oracle given as a table of token starts
     numbered {"lines": [str], "k": n?} -> {"ok": [[text, indentation, comment|null]], "tight": bool} | {"err": "IndexError", "tight": bool}
              with "k": the records of the lines after `scaleLine k`; "tight" = every line satisfies `openerTight` (hypothesis of
              `numbered_lines_scale_partial`)
@@ -16,6 +18,7 @@ import NemoVerif.Models.Layout
 import NemoVerif.Models.ErrWrap
 import NemoVerif.Models.NumberedLines
 import NemoVerif.Models.PreExpand
+import NemoVerif.Models.TextLayout
 
 namespace NemoVerif.Drive.C13
 open Lean NemoVerif NemoVerif.Drive
@@ -35,6 +38,13 @@ def pieceOfJson (j : Json) : Except String Layout.Piece := do
 def safeStr (s : String) : Json :=
   .str (String.ofList (s.toList.map fun ch =>
     if ch = '\u0085' then '\uE085' else if ch = '\u2028' then '\uE028' else if ch = '\u2029' then '\uE029' else ch))
+
+def pieceToJson : Layout.Piece → Json
+  | .tok ty v => Json.arr #[.str "t", .str ty, safeStr v]
+  | .ws .sp => Json.arr #[.str "s"]
+  | .ws .tab => Json.arr #[.str "b"]
+  | .comment c => Json.arr #[.str "c", safeStr c]
+  | .nl cr => Json.arr #[.str "n", .bool cr]
 
 def indStr (l : List Layout.Ws) : String :=
   String.ofList (l.map fun w => match w with | .sp => ' ' | .tab => '\t')
@@ -111,6 +121,18 @@ def handle (op : String) (j : Json) : Except String Json := do
     let la ← (← j.getObjVal? "lines").getArr?
     let lines ← la.toList.mapM fun x => x.getStr?
     pure (Json.mkObj [("ok", Json.arr ((PreExpand.preExpand (lines.map String.toList)).map fun l => safeStr (String.ofList l)).toArray)])
+  | "textseg" =>
+    let text ← (← j.getObjVal? "text").getStr?
+    let ta ← (← j.getObjVal? "toks").getArr?
+    let table ← ta.toList.mapM fun e => do
+      let a ← e.getArr?
+      match a.toList with
+      | [p, .str ty, n] => do pure ((← p.getNat?), ty, (← n.getNat?))
+      | _ => throw "bad token entry"
+    let cs := text.toList
+    match TextLayout.seg (TextLayout.tableOracle cs.length table) false 0 cs with
+    | .error e => pure (Json.mkObj [("segerr", .str (errName e))])
+    | .ok ps => pure (Json.mkObj [("seg", Json.arr (ps.map pieceToJson).toArray)])
   | _ => throw s!"unknown op C13.{op}"
 
 end NemoVerif.Drive.C13
